@@ -59,15 +59,31 @@ func racePass(id string) (reports []RaceReport, total int, ran bool, err error) 
 	cmd := exec.Command(bin, id, "race-child")
 	cmd.Env = append(os.Environ(), "GORACE=halt_on_error=0 exitcode=0 history_size=3 log_path="+filepath.Join(dir, "race"))
 	out, cerr := cmd.CombinedOutput()
+	seen := map[string]bool{}
 	if cerr != nil {
-		tail := string(out)
-		if len(tail) > 1500 {
-			tail = tail[len(tail)-1500:]
+		// The bodies made the process die. The runtime's own "fatal error" (concurrent map access, unlock of an unlocked
+		// mutex, ...) in Dirk's code is a finding; anything else is the harness's problem.
+		text := string(out)
+		i := strings.Index(text, "fatal error: ")
+		if i < 0 || !strings.Contains(text[i:], "github.com/attestantio/dirk/") || strings.Contains(text[i:], "RACE-CHILD-ERROR") {
+			if len(text) > 1500 {
+				text = text[len(text)-1500:]
+			}
+			return nil, 0, true, fmt.Errorf("race-detector child: %v: %s", cerr, text)
 		}
-		return nil, 0, true, fmt.Errorf("race-detector child: %v: %s", cerr, tail)
+		line := text[i:]
+		if j := strings.IndexByte(line, '\n'); j > 0 {
+			line = line[:j]
+		}
+		rep := text[i:]
+		if len(rep) > 4000 {
+			rep = rep[:4000]
+		}
+		total++
+		seen[line] = true
+		reports = append(reports, RaceReport{Key: line, Text: rep})
 	}
 	files, _ := filepath.Glob(filepath.Join(dir, "race.*"))
-	seen := map[string]bool{}
 	for _, f := range files {
 		b, rerr := os.ReadFile(f)
 		if rerr != nil {
@@ -186,7 +202,7 @@ func raceFindings(run *ev.Run, what string) (map[string]any, error) {
 		return nil, err
 	}
 	for _, rr := range reports {
-		run.Violate("data-race:"+rr.Key, fmt.Sprintf("while clients sign side by side, two goroutines touch the same memory with no synchronisation between them (%s): what is recorded and signed for one request depends on the other's timing. Race detector report:\n%s", rr.Key, rr.Text),
+		run.Violate("data-race:"+rr.Key, fmt.Sprintf("while requests are served side by side, two goroutines touch the same memory with no synchronisation between them (%s): what one request is answered depends on the other's timing. Race detector report:\n%s", rr.Key, rr.Text),
 			map[string]any{"check": run.ID, "race": rr.Key})
 	}
 	return map[string]any{"ran": ran, "reports": total, "reports_with_dirk_code_on_both_sides": len(reports), "bodies": what}, nil
@@ -195,4 +211,58 @@ func raceFindings(run *ev.Run, what string) (map[string]any, error) {
 func init() {
 	RaceBodies["C01"] = func() error { return sigRaceBodies(false) }
 	RaceBodies["C02"] = func() error { return sigRaceBodies(true) }
+}
+
+// listRaceBodies: accounts are generated into a wallet that was empty when the instance started while two clients list
+// that wallet and a third signs with what has been generated so far.
+func listRaceBodies() error {
+	old := runtime.GOMAXPROCS(4)
+	defer runtime.GOMAXPROCS(old)
+	r, err := rig.NewSignerRig(rig.SignerOpts{Wallets: []string{"Wallet 1", "Fresh"}, Full: true,
+		Permissions: map[string][]*checker.Permissions{rig.DefaultClient: {{Path: ".*", Operations: []string{"All"}}}}})
+	if err != nil {
+		return err
+	}
+	defer r.Close()
+	creds := &checker.Credentials{Client: rig.DefaultClient, RequestID: "r", IP: "10.0.0.1"}
+	r.AddSymAccount("Wallet 1", "", "pass", true)
+	done := make(chan struct{})
+	var wg sync.WaitGroup
+	for c := 0; c < 3; c++ {
+		wg.Add(1)
+		go func(c int) {
+			defer wg.Done()
+			dom := make([]byte, 32)
+			dom[0] = 7
+			for i := 0; ; i++ {
+				select {
+				case <-done:
+					return
+				default:
+				}
+				if c < 2 {
+					r.Lister.ListAccounts(r.Ctx, creds, []string{"Fresh", "Wallet 1"})
+				} else {
+					r.Signer.SignGeneric(r.Ctx, creds, fmt.Sprintf("Fresh/g%d", i%8), nil, &rules.SignData{Domain: dom, Data: pat(byte(i))})
+				}
+			}
+		}(c)
+	}
+	generated := 0
+	for i := 0; i < 24; i++ {
+		if _, _, err := r.Process.OnGenerate(r.Ctx, creds, fmt.Sprintf("Fresh/g%d", i), []byte("pass"), 1, 1); err == nil {
+			generated++
+		}
+	}
+	close(done)
+	wg.Wait()
+	if generated == 0 {
+		return fmt.Errorf("no account could be generated into the fresh wallet")
+	}
+	return nil
+}
+
+func init() {
+	RaceBodies["C18"] = listRaceBodies
+	RaceBodies["C20"] = listRaceBodies
 }
